@@ -193,6 +193,8 @@ BinOp(op, l, r, m, line) ==
          ELSE IF op = "|" /\ IsDict(l, h) /\ IsDict(r, h) THEN
             (LET d == DictFromPairs(h[r.a].keys, h[r.a].vals, 1, h[l.a].keys, h[l.a].vals, h) IN NewDict(m, d.keys, d.vals))
          ELSE IF l.t = "bool" \/ r.t = "bool" THEN R(Raise(m, "spec_domain", line), NoneV)
+         \* `A | B` on None and on type-like callables builds a type of the typing dialect
+         ELSE IF op = "|" /\ (l.t \in {"none", "bi"} \/ r.t \in {"none", "bi"}) THEN R(Raise(m, "spec_domain", line), NoneV)
          ELSE TErr)
     ELSE IF op = "<<" \/ op = ">>" THEN
         (IF l.t # "int" \/ r.t # "int" THEN (IF l.t = "bool" \/ r.t = "bool" THEN R(Raise(m, "spec_domain", line), NoneV) ELSE TErr)
@@ -258,8 +260,10 @@ Index(c, i, m, line) ==
 OptInt(v) == IF v.t = "int" THEN Opt(TRUE, v.v) ELSE Opt(FALSE, 0)
 Slice(c, lo, hi, st, m, line) ==      \* lo/hi/st are values (NoneV when absent)
     LET h == m.heap IN
-    IF ~(\A x \in {lo, hi, st} : x.t \in {"int", "none"}) THEN R(Raise(m, "type", line), NoneV)
-    ELSE IF st.t = "int" /\ st.v = 0 THEN R(Raise(m, "value", line), NoneV)
+    IF ~(c.t \in {"tuple", "str", "range"} \/ IsList(c, h)) THEN R(Raise(m, "type", line), NoneV)
+    ELSE IF ~(\A x \in {lo, hi, st} : x.t \in {"int", "none"}) THEN R(Raise(m, "type", line), NoneV)
+    \* a zero step is an error; the implementation words it as a bad index
+    ELSE IF st.t = "int" /\ st.v = 0 THEN R(Raise(m, "index", line), NoneV)
     ELSE IF c.t = "tuple" THEN
         (LET ps == SlicePositions(Len(c.v), OptInt(lo), OptInt(hi), OptInt(st))
          IN R(m, TupV([i \in 1..Len(ps) |-> c.v[ps[i]]])))
@@ -469,7 +473,11 @@ E(e, env, m) ==
              lo == IF Absent(e.lo) THEN R(c.m, NoneV) ELSE E(e.lo, env, c.m)
              hi == IF Absent(e.hi) THEN R(lo.m, NoneV) ELSE E(e.hi, env, lo.m)
              st == IF Absent(e.st) THEN R(hi.m, NoneV) ELSE E(e.st, env, hi.m) IN
-         IF ~Ok(st.m) THEN R(st.m, NoneV) ELSE Slice(c.v, lo.v, hi.v, st.v, st.m, e.line))
+         IF ~Ok(st.m) THEN R(st.m, NoneV)
+         \* an explicit None bound: accepted by the reference language, rejected here for strings
+         ELSE IF c.v.t = "str" /\ ((~Absent(e.lo) /\ lo.v.t = "none") \/ (~Absent(e.hi) /\ hi.v.t = "none") \/ (~Absent(e.st) /\ st.v.t = "none"))
+              THEN R(Raise(st.m, "spec_domain", e.line), NoneV)
+         ELSE Slice(c.v, lo.v, hi.v, st.v, st.m, e.line))
     ELSE IF e.k = "lambda" THEN
         (LET ds == EvalSeq([i \in 1..Len(e.params) |-> IF Absent(e.params[i].d) THEN [k |-> "none", line |-> e.line] ELSE e.params[i].d],
                            1, env, m, <<>>) IN
